@@ -17,6 +17,7 @@
     Props/GenLogicStructs  Gen/LogicStructs  tracked_struct.rs ↔ Model/Structs, CoreSpec  (C06)
     Props/GenLogicDG       Gen/LogicDG       runtime/dependency_graph.rs, runtime.rs
                                              ↔ Model/SyncDG                   (C14, C16–C19)
+    Props/GenLogicProvisional Gen/LogicCycle  maybe_changed_after.rs: validate_provisional ↔ Model/CycleRev (C12, C14, C20)
     Props/GenLogicRuntime  Gen/LogicRuntime  runtime.rs, revision.rs, input.rs, input_field.rs, database.rs,
                                              setup_input_struct.rs (write-side revision / durability
                                              bookkeeping) ↔ Model/Core, Core3, CoreSpec, CoreAcc (C01, C02)
@@ -29,3 +30,4 @@ import SalsaVerif.Props.GenLogicCycle
 import SalsaVerif.Props.GenLogicStructs
 import SalsaVerif.Props.GenLogicDG
 import SalsaVerif.Props.GenLogicRuntime
+import SalsaVerif.Props.GenLogicProvisional
